@@ -233,8 +233,9 @@ type builder struct {
 	ph     *hostSheet
 	user   []*hostSheet
 	author []*authorHost
-	// deferred actions run, in order, when the document is finished
+	// deferred actions run, in order, when the document is finished; final ones after them
 	deferred []func()
+	final    []func()
 	// cur is the author sheet element being filled (the link-* carriers need it)
 	cur *authorHost
 }
@@ -268,7 +269,10 @@ func (b *builder) finish() {
 	for _, f := range b.deferred {
 		f()
 	}
-	b.deferred = nil
+	for _, f := range b.final {
+		f()
+	}
+	b.deferred, b.final = nil, nil
 	if b.ua != nil {
 		d.UA = b.ua.sheet()
 	} else {
@@ -444,7 +448,9 @@ var pairProps = []string{"z-index", "orphans", "width", "order", "margin-top", "
 // buildTuple builds the document in which the templates ts compete, in this order, for one
 // property of the probe.  arrangement 0: every template in its own sheet; 1: templates of one
 // origin share a sheet; 2: like 1 and a nested-carrier template is nested inside the rule of the
-// preceding plain template.
+// preceding plain template; 3: like 1, the shared author sheet is a file that a <style> imports
+// (the templates' own imports are then imports of an imported sheet); 4: like 1, the shared
+// author sheet is a <link>ed file.
 func buildTuple(ts []tmpl, arrangement int, variant int) caseIn {
 	b, probe, _ := newScene()
 	prop := pairProps[variant%len(pairProps)]
@@ -532,6 +538,17 @@ func buildTuple(ts []tmpl, arrangement int, variant int) caseIn {
 				a = b.newAuthor("link", nil)
 			case arrangement >= 1 && sharedAuthor != nil:
 				a = sharedAuthor
+			case arrangement == 3:
+				outer := b.newAuthor("style", nil)
+				sh := &Sheet{}
+				outer.host.imports = append(outer.host.imports, Item{Kind: "import", File: b.file(sh)})
+				a = &authorHost{kind: "style", host: &hostSheet{}}
+				inner := a.host
+				b.final = append(b.final, func() { *sh = *inner.sheet() })
+				sharedAuthor = a
+			case arrangement == 4:
+				a = b.newAuthor("link", nil)
+				sharedAuthor = a
 			default:
 				a = b.newAuthor("style", nil)
 				sharedAuthor = a
@@ -624,7 +641,26 @@ func nTriplesEx(tier string) int {
 // this is drawn again.
 const maxGeneratedImports = 48
 
-func nPairs() int { return len(templates)*len(templates)*2 + len(nestedInside) }
+// importish lists the templates whose carrier is an @import of some kind (import graph family
+// included): their ordered pairs are also enumerated with the shared sheet one level down
+// (arrangements 3 and 4).
+var importish = func() []int {
+	is := map[string]bool{"import": true, "import2": true, "import-media-": true, "import-urlfn": true}
+	for _, c := range importGraphCarriers {
+		is[c] = true
+	}
+	var out []int
+	for i, t := range templates {
+		if is[t.carrier] {
+			out = append(out, i)
+		}
+	}
+	return out
+}()
+
+func nPairsBase() int { return len(templates)*len(templates)*2 + len(nestedInside) }
+
+func nPairs() int { return nPairsBase() + 2*len(importish)*len(importish) }
 
 func genN(tier string) int {
 	if tier == "thorough" {
@@ -649,9 +685,17 @@ func genCase(r *rand.Rand, i int, tier string) caseIn {
 		k := i % (nt * nt)
 		in = buildTuple([]tmpl{templates[k/nt], templates[k%nt]}, arr, k/nt+k%nt+arr)
 		in.Kind = "pair"
-	case i < nPairs():
+	case i < nPairsBase():
 		p := nestedInside[i-2*nt*nt]
 		in = buildTuple([]tmpl{templates[p[0]], templates[p[1]]}, 2, p[0]+p[1])
+		in.Kind = "pair"
+	case i < nPairs():
+		k := i - nPairsBase()
+		n := len(importish)
+		arr := 3 + k/(n*n)
+		k %= n * n
+		a, b := importish[k/n], importish[k%n]
+		in = buildTuple([]tmpl{templates[a], templates[b]}, arr, a+b+arr)
 		in.Kind = "pair"
 	case i < nPairs()+nTriplesEx(tier):
 		k := i - nPairs()
@@ -667,7 +711,7 @@ func genCase(r *rand.Rand, i int, tier string) caseIn {
 		for k := range ts {
 			ts[k] = templates[r.Intn(nt)]
 		}
-		in = buildTuple(ts, r.Intn(3), r.Intn(40))
+		in = buildTuple(ts, r.Intn(5), r.Intn(40))
 		in.Kind = "triple"
 	default:
 		for try := 0; ; try++ {
